@@ -12,7 +12,7 @@ META = {
                   "used size; the offline checker requires used == initial + sum over files of (last reported size - size when first opened), "
                   "read() <= size-position (and == min(requested, size-position)), unlink to decrease used by exactly size(), and a reopened "
                   "file to report the size it had when closed. The oracle uses only what the API reports, not a model of write semantics.",
-    "level_note": "One handle per path at a time (two handles on one path cache independent sizes by design); the disk never fills (500GiB); remote "
+    "level_note": "One handle per path at a time (two handles on one path cache independent sizes by design); a third of the scripts run again on a nearly full disk (0..150000 bytes of room: writes are cut short, refused, or cross the capacity); remote "
                   "files (other host) are not exercised. Plain and ASan+UBSan flavours.",
     "rule": "case = one script; non-trivial = distinct scripts containing at least one write at a position strictly inside a file or one unlink, fully checked",
     "ready": True,
@@ -147,10 +147,36 @@ def check(ctx, ops, out_lines, w):
     return True
 
 
-def run_one(ctx, fl, ops):
+def run_one(ctx, fl, ops, slack=None):
+    """slack=None: the shipped platform (500GiB disk that never fills); otherwise a copy of it whose disk has room for
+    `slack` more bytes than its initial content, so that writes hit (and cross) the capacity"""
+    import os
+    import tempfile
     exe = build.harness("fs.cpp", fl)
-    res = proc.run([exe, PLATFORM, "--log=root.thres:error"], stdin="\n".join(ops) + "\n", timeout=120)
+    plat = PLATFORM
+    tmp = None
+    if slack is not None:
+        if not _USED0:
+            r0 = proc.run([exe, PLATFORM, "--log=root.thres:error"], stdin="\n", timeout=120)
+            _USED0.append(int(r0.out.split()[1]))
+        tmp = tempfile.mkdtemp(prefix="verif-C46-")
+        plat = os.path.join(tmp, "small_disk.xml")
+        with open(PLATFORM) as f:
+            xml = f.read()
+        assert xml.count('value="500GiB"') == 1
+        with open(plat, "w") as f:
+            f.write(xml.replace('value="500GiB"', 'value="%dB"' % (_USED0[0] + slack)))
+    try:
+        res = proc.run([exe, plat, "--log=root.thres:error", "--cfg=path:" + os.path.dirname(PLATFORM)],
+                       stdin="\n".join(ops) + "\n", timeout=120)
+    finally:
+        if tmp:
+            import shutil
+            shutil.rmtree(tmp, ignore_errors=True)
     return res
+
+
+_USED0 = []
 
 
 def run(ctx):
@@ -164,13 +190,22 @@ def run(ctx):
     ctx.sample({"script": scripts[1][0]})
     for fl in ("hooks", "asan"):
         build.harness("fs.cpp", fl)
-    jobs = [("hooks", s) for s in scripts] + [("asan", s) for s in scripts[: max(10, n // 10)]]
+    # a third of the scripts also run on a disk with little room left (0 .. 150000 bytes above its initial content): writes are
+    # cut short or refused, appends cross the capacity; the oracle is the same (it only adds up what the API reports)
+    slacks = [0, 1, 99, 100, 4096, 5000, 50000, 150000]
+    directed_full = ["o 0 /scratch/v/a", "w 0 300 0", "o 1 /scratch/v/b", "w 1 900 0", "s 0 100 0", "w 0 50 0", "c 0", "o 0 /scratch/v/a",
+                     "u 0", "c 0", "u 1", "c 1"]
+    jobs = [("hooks", s, None) for s in scripts] + [("asan", s, None) for s in scripts[: max(10, n // 10)]] + \
+           [("hooks", s, slacks[i % len(slacks)]) for i, s in enumerate(scripts[: max(20, n // 3)])] + \
+           [("hooks", (directed_full, True), 1000), ("asan", (directed_full, True), 1000)]
 
     def one(j):
-        fl, (ops, inter) = j
-        res = run_one(ctx, fl, ops)
+        fl, (ops, inter), slack = j
+        res = run_one(ctx, fl, ops, slack)
         ctx.evaluation()
-        w = {"flavour": fl, "ops": ops}
+        w = {"flavour": fl, "ops": ops, "slack": slack}
+        if slack is not None:
+            ctx.count("runs_on_a_nearly_full_disk")
         if res.timed_out:
             ctx.inconclusive("fs harness watchdog")
             return
@@ -180,13 +215,15 @@ def run(ctx):
             ctx.violation("C46:crash:%s" % (ops[min(idx, len(ops) - 1)].split()[0]), "fs harness died rc=%s at op #%d %r: %s"
                           % (res.rc, idx, ops[min(idx, len(ops) - 1)], proc.sanitizer_reports(res.err)[:1] or res.err[-300:]), w)
             return
+        if slack is not None and any(l.split()[1] == "0" and o.startswith("w ") and o.split()[2] != "0" for l, o in zip(lines[1:], ops)):
+            ctx.count("writes_refused_because_the_disk_is_full")
         if check(ctx, ops, lines, w) and inter:
-            ctx.nontrivial(ops)
+            ctx.nontrivial([ops, slack])
     ctx.pmap(one, jobs)
 
 
 def replay(ctx, w):
-    res = run_one(ctx, w["flavour"], w["ops"])
+    res = run_one(ctx, w["flavour"], w["ops"], w.get("slack"))
     ctx.evaluation()
     lines = [l for l in res.out.splitlines() if l and (l[0].isdigit() or l.startswith("INIT"))]
     if len(lines) == len(w["ops"]) + 1:
